@@ -17,6 +17,7 @@
 #include "bee2/core/err.h"
 
 extern void (*bee2_verif_yield)(int);
+extern long bee2_verif_blob_live;	/* hook BEE2_VERIF_BLOB_COUNT: blobs created and not yet closed */
 
 #define MAXT 32
 static int T = 4;
@@ -340,9 +341,9 @@ static int mode_rng(void)
 		}
 	printf("{\"mode\":\"rng\",\"threads\":%d,\"ops\":%ld,\"blocks\":%zu,\"dup_blocks\":%zu,\"dup_sample\":\"%s\","
 		"\"short_reads\":%ld,\"bad_valid\":%ld,\"end_valid\":%d,\"shadow_end\":%zu,\"create_err\":%ld,"
-		"\"quiescent_checks\":%ld,\"sig\":\"%016llx\"}\n",
+		"\"quiescent_checks\":%ld,\"blobs_live_end\":%ld,\"sig\":\"%016llx\"}\n",
 		T, rng_ops, n, dups, dup_hex, rng_short, rng_bad_valid, end_valid, shadow, rng_create_err,
-		rng_quiescent_checks, (unsigned long long)sig_final());
+		rng_quiescent_checks, __atomic_load_n(&bee2_verif_blob_live, __ATOMIC_SEQ_CST), (unsigned long long)sig_final());
 	return 0;
 }
 
